@@ -25,9 +25,12 @@ RULE = ('correspondence: every ordered unit pair of every base type x magnitudes
         'random values (model = regenerated exact Rat formulas run by the Lean driver, implementation = '
         'DataType.to_unit; relative tolerance 1e-12 after decoding), unknown/malformed units, to_ip/to_si and '
         'is_in_range of all 109 types x units, Header unit acceptance, random convert_*/to_* sequences on small '
-        'collections of all 10 collection classes; oracle: independent SI table (exact fractions) x every ordered '
+        'collections of all 10 collection classes (convert_* on immutable classes must raise), normalize/aggregate by '
+        'area and time aggregation / rate of change on all classes that have them (timesteps 1,2,4,6; daily), values '
+        'with non-numbers (_is_numeric), GenericType; oracle: independent SI table (exact fractions) x every ordered '
         'pair x magnitudes: 0.2 % agreement, 2e-5 round trip, identity, IP/SI targets, rejection, collections keep '
-        'values/unit/type in step.  A case is non-trivial when the implementation returns a value (not a '
+        'values/unit/type in step, normalise x area = original quantity and aggregate undoes it, rate x seconds = '
+        'aggregated quantity and rate of change undoes it (SI).  A case is non-trivial when the implementation returns a value (not a '
         'rejection); distinct = distinct (op, input)')
 TRUSTED_BASE = [
     'translator tools/extract/units.py: the emitted Lean expression denotes the Python `return` expression over '
@@ -40,8 +43,11 @@ TRUSTED_BASE = [
     'IEEE-754 evaluation of the formulas vs exact rationals: compared to 1e-12 relative on the generated '
     'magnitudes, not proved (>= 10^6 head-room below the 2e-5 / 0.2 % bounds)',
     'Angle: pi is a symbol; theorems hold for every non-zero pi of every field of characteristic 0',
-    'not modelled: the `_is_numeric` assertion on non-numeric values, GenericType (single unit, to_unit not '
-    'implemented), normalize_by_area/aggregate_by_area and time aggregation (outside the statement of C06)',
+    'normalize_by_area/aggregate_by_area unit labels and the reverse type look-ups are string/table functions: '
+    'executable model compared with the code on every run; their label round trip is a compile-time #guard over the '
+    'regenerated tables (the kernel does not evaluate String.replace), values and factors are theorems',
+    'GenericType and the `_is_numeric` assertion are small hand models (to_unit not implemented / first value only) '
+    'tied by the correspondence ops `generic` and `raw`',
 ]
 ASSUMPTIONS = ['SI / legal definitions of the units as listed at the top of Model/SI.lean',
                'thermochemical calorie, International-Table Btu, US gallon/fluid ounce, mechanical horsepower, '
@@ -52,8 +58,12 @@ LEVEL_TEXT = ('Machine-checked Lean 4 theorems over exact rationals: every one o
               'agrees with a hand-written SI table within 0.2 % (factor and offset), converts there and back within '
               '2e-5, that to_ip/to_si land in listed IP/SI units idempotently; general theorems lift this to the '
               'dispatch (to_unit on listed units, rejection of unlisted ones) and to collection conversion '
-              '(values, unit and data type move together; SI meaning preserved within 0.2 %). Angle is proved '
-              'symbolically in pi over any field of characteristic 0.')
+              '(convert_to_unit/ip/si and to_unit/ip/si: values, unit and data type move together; meaning preserved '
+              'within the round-trip bound; immutable classes refuse in-place conversion), to the unit NAMES returned by '
+              'to_ip/to_si (listed, idempotent, identity when listed), to is_in_range (limits converted with the same '
+              'formulas, order preserved), to normalize/aggregate by area and time aggregation (exact inverses; generated '
+              'theorems: normalised units are SI quotients, aggregation factors are 3600 s in SI terms), GenericType and '
+              'the _is_numeric guard. Angle is proved symbolically in pi over any field of characteristic 0.')
 LEVEL_NOTE = ('Trusted: Lean kernel; axioms propext/Classical.choice/Quot.sound only; the formula translator and the '
               'hand-written SI table; float vs exact arithmetic compared (1e-12), not proved; correspondence on '
               'generated inputs only for the dispatch/collection layer.')
@@ -144,6 +154,9 @@ def compare_num(ctx, op, cases, model_line, impl_fn, slack_fn=None, key=None):
         ctx.case((op, key(c) if key else line), nontrivial=not is_err)
         if is_err:
             ctx.count('err_results')
+            ctx.count('result:%s:%s' % (op, io[0]))
+        else:
+            ctx.count('result:%s:ok' % op)
         if not _same(_parse_model(mo), io, slack_fn(c) if slack_fn else 0.0):
             ctx.disagree(op, {'case': c, 'line': line}, mo, ' '.join(
                 (repr(x) if isinstance(x, float) else str(x)) for x in io))
@@ -456,6 +469,169 @@ def correspondence(ctx):
                 lambda c: OFFSET_TYPES_ABS if _has_offset(tabs, c[1]) else 0.0,
                 key=lambda c: json.dumps([c[0], c[1], c[2], c[4], len(c[3])]))
 
+    _area_time_correspondence(ctx, tabs, names, base_names)
+    _raw_generic_correspondence(ctx, tabs, names, base_names)
+
+
+def _area_time_correspondence(ctx, tabs, names, base_names):
+    """normalize_by_area / aggregate_by_area / to_time_aggregated / to_time_rate_of_change."""
+    rng = ctx.rng
+    norm_types = ['Energy', 'Power', 'VolumeFlowRate', 'ActivityLevel']
+    int_types = [n for n in names if tabs[n]['parent'] in ('EnergyIntensity', 'EnergyFlux', 'VolumeFlowRateIntensity')]
+    rate_types = [n for n in names if tabs[n]['parent'] in ('EnergyFlux', 'MassFlowRate', 'Power', 'Speed',
+                                                            'TemperatureDelta')]
+    agg_types = [n for n in names if tabs[n]['parent'] in ('EnergyIntensity', 'Mass', 'Energy', 'Distance',
+                                                           'TemperatureTime')]
+    area_units = tabs['Area']['units']
+
+    def nvals(cls, ts=1):
+        return 24 * ts if cls.startswith('HourlyContinuous') else rng.choice([1, 2, 3])
+
+    def pick_vals(k):
+        return [rng.choice([0.0, 1.0, -2.5, 1000.0, rng.uniform(-1e4, 1e4), 10.0 ** rng.randrange(-6, 7)])
+                for _ in range(k)]
+
+    cases = []
+    for cls in COLL_CLASSES:
+        for _ in range(ctx.n(30, 300)):
+            op = rng.choice(['norm', 'agg'])
+            r = rng.random()
+            if op == 'norm':
+                n = rng.choice(norm_types) if r < 0.8 else rng.choice(names)
+            else:
+                n = rng.choice(int_types) if r < 0.8 else rng.choice(names)
+            u = rng.choice(tabs[n]['units'])
+            r = rng.random()
+            au = rng.choice(['m2', 'ft2']) if r < 0.7 else rng.choice(area_units) if r < 0.9 else \
+                rng.choice(UNKNOWN_UNITS)
+            if op == 'agg' and rng.random() < 0.6:
+                au = 'ft2' if 'ft2' in u else 'm2'
+            if op == 'norm' and rng.random() < 0.5:
+                au = 'ft2' if ('Btu' in u or 'ft' in u or u in ('cfm', 'gph')) else 'm2'
+            area = rng.choice([2.0, 0.5, 100.0, rng.uniform(0.1, 1e4), -3.0]) if rng.random() < 0.93 else 0.0
+            cases.append((op, cls, n, u, pick_vals(nvals(cls)), area, au))
+            ctx.count('area_op:' + op)
+
+    def line_area(c):
+        return '%s %s %s %s %s %s %s' % (c[0], '1' if c[1].endswith('Immutable') else '0', c[2], _utok(c[3]),
+                                        _vals(c[4]), _fbits(c[5]), _utok(c[6]))
+
+    def impl_area(c):
+        coll = make_collection(c[1], c[2], c[3], c[4])
+        res = coll.normalize_by_area(c[5], c[6]) if c[0] == 'norm' else coll.aggregate_by_area(c[5], c[6])
+        return ['ok'] + state(res)
+
+    compare_num(ctx, 'area', cases, line_area, impl_area,
+                key=lambda c: json.dumps([c[0], c[1], c[2], c[3], c[6], c[5], len(c[4])]))
+
+    cases = []
+    for cls in COLL_CLASSES:
+        if not (cls.startswith('Hourly') or cls.startswith('Daily')):
+            continue
+        for _ in range(ctx.n(30, 300)):
+            op = rng.choice(['tagg', 'trate'])
+            r = rng.random()
+            if op == 'tagg':
+                n = rng.choice(rate_types) if r < 0.85 else rng.choice(names)
+            else:
+                n = rng.choice(agg_types) if r < 0.85 else rng.choice(names)
+            u = rng.choice(tabs[n]['units'])
+            ts = rng.choice([1, 1, 2, 4, 6]) if cls.startswith('Hourly') else 1
+            cases.append((op, cls, n, u, pick_vals(nvals(cls, ts)), ts))
+            ctx.count('time_op:' + op)
+
+    def step_of(c):
+        return float(c[5]) if c[1].startswith('Hourly') else 1. / 24.
+
+    def line_time(c):
+        return '%s %s %s %s %s %s' % (c[0], '1' if c[1].endswith('Immutable') else '0', c[2], _utok(c[3]),
+                                     _vals(c[4]), _fbits(step_of(c)))
+
+    def impl_time(c):
+        coll = make_collection(c[1], c[2], c[3], c[4], c[5])
+        res = coll.to_time_aggregated() if c[0] == 'tagg' else coll.to_time_rate_of_change()
+        return ['ok'] + state(res)
+
+    compare_num(ctx, 'time', cases, line_time, impl_time,
+                key=lambda c: json.dumps([c[0], c[1], c[2], c[3], c[5], len(c[4])]))
+
+
+def _raw_generic_correspondence(ctx, tabs, names, base_names):
+    """`_is_numeric` (values with non-numbers) and GenericType."""
+    rng = ctx.rng
+    cases = []
+    for _ in range(ctx.n(300, 3000)):
+        n = rng.choice(base_names)
+        us = tabs[n]['units']
+        u = rng.choice(us) if rng.random() < 0.85 else rng.choice(UNKNOWN_UNITS)
+        f = rng.choice(us) if rng.random() < 0.85 else rng.choice(UNKNOWN_UNITS)
+        if rng.random() < 0.3:
+            u = f = us[0]
+        k = rng.choice([0, 1, 2, 3])
+        vals = []
+        for i in range(k):
+            r = rng.random()
+            vals.append(None if r < 0.3 else rng.choice([0.0, 1.0, -40.0, rng.uniform(-100, 100)]))
+        cases.append((n, u, f, vals))
+        ctx.count('raw:first_non_number' if vals and vals[0] is None else
+                  'raw:later_non_number' if None in vals else 'raw:all_numbers')
+
+    def line_raw(c):
+        return 'raw %s %s %s %d %s' % (c[0], _utok(c[1]), _utok(c[2]), len(c[3]),
+                                       ' '.join('str' if v is None else _fbits(v) for v in c[3]))
+
+    def impl_raw(c):
+        r = _inst(c[0]).to_unit([('abc' if v is None else v) for v in c[3]], c[1], c[2])
+        return ['ok'] + ['str' if isinstance(v, str) else v for v in r]
+
+    compare_num(ctx, 'raw', cases, line_raw, impl_raw,
+                lambda c: OFFSET_TYPES_ABS if _has_offset(tabs, c[0]) else 0.0,
+                key=lambda c: json.dumps([c[0], c[1], c[2], [v is None for v in c[3]]]))
+
+    from ladybug.datatype.generic import GenericType
+    gunits = ['widgets', 'kWh', 'fl oz', '%', 'C']
+    cases = []
+    for g in gunits:
+        for u in gunits + ['', 'Widgets']:
+            cases.append(('g_to_unit', g, u, rng.choice(gunits), [1.0, 2.0]))
+            cases.append(('g_to_sys', g, u, 'ip', [1.0, -2.5]))
+            cases.append(('g_to_sys', g, u, 'si', [rng.uniform(-5, 5)]))
+            cases.append(('g_header', g, u))
+            for lo, hi in ((None, None), (0.0, None), (-1.0, 1.0), (None, 10.0)):
+                for vals in ([], [0.5], [-2.0, 0.5], [11.0], [0.0, 1.0]):
+                    cases.append(('g_in_range', g, u, lo, hi, vals))
+                    cases.append(('g_in_range', g, None, lo, hi, vals))
+
+    def bnd(x, neg):
+        return ('-inf' if neg else 'inf') if x is None else _fbits(x)
+
+    def line_g(c):
+        if c[0] == 'g_to_unit':
+            return 'g_to_unit %s %s %s %s' % (_utok(c[1]), _utok(c[2]), _utok(c[3]), _vals(c[4]))
+        if c[0] == 'g_to_sys':
+            return 'g_to_sys %s %s %s' % (_utok(c[1]), _utok(c[2]), _vals(c[4]))
+        if c[0] == 'g_header':
+            return 'g_header %s %s' % (_utok(c[1]), _utok(c[2]))
+        return 'g_in_range %s %s %s %s %s' % (_utok(c[1]), bnd(c[3], True), bnd(c[4], False), _utok(c[2]), _vals(c[5]))
+
+    def impl_g(c):
+        from ladybug.header import Header
+        from ladybug.analysisperiod import AnalysisPeriod
+        if c[0] == 'g_in_range':
+            g = GenericType('My Type', c[1], float('-inf') if c[3] is None else c[3],
+                            float('inf') if c[4] is None else c[4])
+            return ['ok', 1.0 if g.is_in_range(list(c[5]), c[2], False) else 0.0]
+        g = GenericType('My Type', c[1])
+        if c[0] == 'g_to_unit':
+            return ['ok'] + list(g.to_unit(list(c[4]), c[2], c[3]))
+        if c[0] == 'g_to_sys':
+            vals, u = (g.to_ip if c[3] == 'ip' else g.to_si)(list(c[4]), c[2])
+            return ['ok', _utok(u)] + list(vals)
+        h = Header(g, c[2], AnalysisPeriod())
+        return ['ok'] if h.unit == c[2] else ['unit changed']
+
+    compare_num(ctx, 'generic', cases, line_g, impl_g, key=lambda c: json.dumps(c))
+
 
 def _near_limit(c, tabs):
     """An is_in_range probe within float noise of a converted limit (exact model vs IEEE code)."""
@@ -474,7 +650,7 @@ def _near_limit(c, tabs):
         return False
 
 
-def make_collection(cls, tname, unit, values):
+def make_collection(cls, tname, unit, values, timestep=1):
     """A small collection of class `cls` with len(values) values (built from plain numbers)."""
     from ladybug import datacollection as dc
     from ladybug import datacollectionimmutable as dci
@@ -485,10 +661,11 @@ def make_collection(cls, tname, unit, values):
     klass = getattr(dc, cls, None) or getattr(dci, cls)
     dt = _inst(tname)
     if cls.startswith('HourlyContinuous'):
-        ap = AnalysisPeriod(1, 1, 0, 1, k // 24, 23)       # whole days only (k is a multiple of 24)
+        # whole days only (k is a multiple of 24 * timestep)
+        ap = AnalysisPeriod(1, 1, 0, 1, k // (24 * timestep), 23, timestep)
         return klass(Header(dt, unit, ap), list(values))
     if cls.startswith('HourlyDiscontinuous'):
-        ap = AnalysisPeriod()
+        ap = AnalysisPeriod(timestep=timestep)
         return klass(Header(dt, unit, ap), list(values), [DateTime(1, 1 + 2 * i, 3) for i in range(k)])
     if cls.startswith('Daily'):
         return klass(Header(dt, unit, AnalysisPeriod()), list(values), [1 + 40 * i for i in range(k)])
@@ -743,7 +920,94 @@ def check_case(op, inp):
             if inst.is_in_range([float(bad_val)], u, False):
                 return {'required': '%r %s is out of range' % (float(bad_val), u), 'observed': True, 'sig': sig}
         return None
+    if op == 'norm_agg':
+        return _check_norm_agg(inst, root, inp, sig)
+    if op == 'time_agg':
+        return _check_time_agg(inst, root, inp, sig)
     raise ValueError('unknown op ' + op)
+
+
+NORMALIZED = {'Energy': 'EnergyIntensity', 'Power': 'EnergyFlux', 'VolumeFlowRate': 'VolumeFlowRateIntensity'}
+AGGREGATED = {'EnergyFlux': 'EnergyIntensity', 'Power': 'Energy', 'MassFlowRate': 'Mass', 'Speed': 'Distance',
+              'TemperatureDelta': 'TemperatureTime'}
+
+
+def _si_vals(root, unit, values):
+    a, b = _ab(SI[root][unit])
+    return [a * Fr(v) + b for v in values]
+
+
+def _rel_close(x, y, tol):
+    return abs(x - y) <= tol * max(abs(x), abs(y))
+
+
+def _check_norm_agg(inst, root, inp, sig):
+    cls, unit, au, area = inp['cls'], inp['unit'], inp['area_unit'], float(inp['area'])
+    sig = dict(sig, cls=cls, unit=unit, area_unit=au)
+    xs = [float(x) for x in inp['values']]
+    coll = make_collection(cls, inp['type'], unit, xs)
+    try:
+        n = coll.normalize_by_area(area, au)
+    except Exception as e:
+        return {'required': 'normalize_by_area(%r, %r) of %s [%s] succeeds' % (area, au, inp['type'], unit),
+                'observed': repr(e), 'sig': dict(sig, fact='normalize-raises')}
+    nroot = _root(n.header.data_type)
+    if nroot != NORMALIZED.get(root) or n.header.unit not in SI[nroot]:
+        return {'required': 'normalised type %s with a unit it lists' % NORMALIZED.get(root),
+                'observed': '%s [%s]' % (nroot, n.header.unit), 'sig': dict(sig, fact='normalized-type')}
+    if (coll.header.unit, list(coll.values), type(coll.header.data_type).__name__) != (unit, xs, inp['type']):
+        return {'required': 'source untouched', 'observed': state(coll), 'sig': dict(sig, fact='source-changed')}
+    a_area = _ab(SI['Area'][au])[0]
+    for w, g in zip(_si_vals(root, unit, xs), _si_vals(nroot, n.header.unit, n.values)):
+        if not _rel_close(g * a_area * Fr(area), w, Fr(1, 10 ** 9)):
+            return {'required': 'normalised value x area = original quantity (SI): %.12g' % float(w),
+                    'observed': '%.12g' % float(g * a_area * Fr(area)), 'sig': dict(sig, fact='normalized-meaning')}
+    try:
+        back = n.aggregate_by_area(area, au)
+    except Exception as e:
+        return {'required': 'aggregate_by_area undoes normalize_by_area', 'observed': repr(e),
+                'sig': dict(sig, fact='aggregate-raises')}
+    if _root(back.header.data_type) != root or back.header.unit != unit or type(back).__name__ != cls or \
+            len(back.values) != len(xs) or not all(_rel_close(Fr(b), Fr(x), Fr(1, 10 ** 12)) for b, x in zip(back.values, xs)):
+        return {'required': '%s [%s] %r again' % (root, unit, xs), 'observed': state(back),
+                'sig': dict(sig, fact='aggregate-inverse')}
+    return None
+
+
+def _check_time_agg(inst, root, inp, sig):
+    cls, unit, ts = inp['cls'], inp['unit'], int(inp['timestep'])
+    sig = dict(sig, cls=cls, unit=unit)
+    xs = [float(x) for x in inp['values']]
+    coll = make_collection(cls, inp['type'], unit, xs, ts)
+    seconds = Fr(3600, ts) if cls.startswith('Hourly') else Fr(86400)
+    try:
+        agg = coll.to_time_aggregated()
+    except Exception as e:
+        return {'required': 'to_time_aggregated of %s [%s] succeeds' % (inp['type'], unit), 'observed': repr(e),
+                'sig': dict(sig, fact='aggregate-raises')}
+    aroot = _root(agg.header.data_type)
+    if aroot != AGGREGATED.get(root) or agg.header.unit not in SI[aroot]:
+        return {'required': 'time-aggregated type %s with a unit it lists' % AGGREGATED.get(root),
+                'observed': '%s [%s]' % (aroot, agg.header.unit), 'sig': dict(sig, fact='aggregated-type')}
+    if (coll.header.unit, list(coll.values)) != (unit, xs):
+        return {'required': 'source untouched', 'observed': state(coll), 'sig': dict(sig, fact='source-changed')}
+    for w, g in zip(_si_vals(root, unit, xs), _si_vals(aroot, agg.header.unit, agg.values)):
+        if not abs(g - w * seconds) <= SI_TOL * abs(w * seconds):
+            return {'required': 'rate x %s s = aggregated quantity (SI, 0.2 %%): %.12g' % (seconds, float(w * seconds)),
+                    'observed': '%.12g %s' % (float(g), agg.header.unit), 'sig': dict(sig, fact='aggregated-meaning')}
+    try:
+        back = agg.to_time_rate_of_change()
+    except Exception as e:
+        return {'required': 'to_time_rate_of_change undoes to_time_aggregated', 'observed': repr(e),
+                'sig': dict(sig, fact='rate-raises')}
+    broot = _root(back.header.data_type)
+    if broot != root or back.header.unit not in SI[root] or len(back.values) != len(xs):
+        return {'required': 'a %s again' % root, 'observed': state(back), 'sig': dict(sig, fact='rate-type')}
+    for w, g in zip(_si_vals(root, unit, xs), _si_vals(root, back.header.unit, back.values)):
+        if not abs(g - w) <= SI_TOL * abs(w):
+            return {'required': 'the original rate (SI, 0.2 %%): %.12g' % float(w), 'observed': '%.12g' % float(g),
+                    'sig': dict(sig, fact='rate-inverse')}
+    return None
 
 
 def _check_coll(inst, root, inp, sig):
@@ -913,5 +1177,48 @@ def _oracle_cases(ctx):
                            'ops': ops}
 
 
+def _oracle_area_time_cases(ctx):
+    rng = ctx.rng
+    big = ctx.searching or not ctx.quick
+    try:
+        import ladybug.datatype as dtm
+        types = sorted(dtm.TYPES)
+    except Exception:
+        types = sorted(SI)
+
+    def root_of(n):
+        try:
+            return _root(_inst(n))
+        except Exception:
+            return None
+    norm = [n for n in types if root_of(n) in NORMALIZED]
+    rate = [n for n in types if root_of(n) in AGGREGATED]
+
+    def nv(cls, ts=1):
+        return 24 * ts if cls.startswith('HourlyContinuous') else rng.choice([1, 2, 3])
+    for cls in COLL_CLASSES:
+        for n in norm:
+            r = root_of(n)
+            for u in SI[r]:
+                for au in ('m2', 'ft2'):
+                    label = '%s-%s' % (u, au) if '/' in u else '%s/%s' % (u, au)
+                    if label in SI[NORMALIZED[r]] and (big or rng.random() < 0.5):
+                        yield 'norm_agg', {'type': n, 'cls': cls, 'unit': u, 'area_unit': au,
+                                           'area': rng.choice([2.0, 0.25, 37.5, rng.uniform(0.1, 1000)]),
+                                           'values': [rng.choice(ORACLE_X[:3] + [rng.uniform(-100, 100)])
+                                                      for _ in range(nv(cls))]}
+        if cls.startswith('Hourly') or cls.startswith('Daily'):
+            for n in rate:
+                r = root_of(n)
+                for u in SI[r]:
+                    if not (big or rng.random() < 0.5):
+                        continue
+                    ts = rng.choice([1, 2, 4]) if cls.startswith('Hourly') else 1
+                    yield 'time_agg', {'type': n, 'cls': cls, 'unit': u, 'timestep': ts,
+                                       'values': [rng.choice([1.0, 1000.0, -40.0, rng.uniform(-100, 100)])
+                                                  for _ in range(nv(cls, ts))]}
+
+
 def oracle(ctx):
     run_oracle_cases(ctx, _oracle_cases(ctx), check_case)
+    run_oracle_cases(ctx, _oracle_area_time_cases(ctx), check_case)
